@@ -573,3 +573,13 @@ Definition wf_C18_obj (ops : list oop) : bool := let '(okd, _, _) := orun ops oi
 Definition run_C18_obj (ops : list oop) : val :=
   let '(okd, res, s) := orun ops oinit true [] in
   VL [VB okd; VL [VL res; dump s]].
+
+(* ---- the BioSeq.str / BioBasket.str namespaces (seq.py:36-199): a row of the regenerated table coq/gen/G_c18_str.v is
+        (method, kind of BioSeq.str.m: 1 = works in place / 0 = returns a value / 2 = raises,
+         [BioBasket.str.m returned the basket itself: 1 / 0 / 2, for baskets with 0, 1 and 2 sequences]) ---- *)
+Definition str_row_ok (row : str * (N * list N)) : bool :=
+  match fst (snd row) with
+  | 1%N => forallb (N.eqb 1) (snd (snd row))
+  | 0%N => forallb (N.eqb 0) (snd (snd row))
+  | _ => true
+  end.
